@@ -374,6 +374,80 @@ def mode_checks():
     return v
 
 
+def copy_independence_checks():
+    """a sequence obtained from another one (switch_register, switch_device, build, a serialisation
+    round trip) reflects only its own calls from then on: whatever is done to the copy - declaring a
+    variable or a channel, adding a pulse, a phase shift, measuring - leaves the original as it was,
+    and the other way round"""
+    from pulser.devices import MockDevice
+
+    def mk(param):
+        with warnings.catch_warnings():
+            warnings.simplefilter("ignore")
+            seq = Sequence(Register.rectangle(1, 2, spacing=8, prefix="q"), MockDevice)
+            seq.declare_channel("r", "rydberg_global")
+            seq.add(Pulse.ConstantPulse(100, 1.0, 0.0, 0.0), "r")
+            if param:
+                x = seq.declare_variable("x", dtype=float)
+                seq.add(Pulse.ConstantPulse(100, x, 0.0, 0.0), "r")
+        return seq
+
+    makers = {
+        "switch_register": lambda s: s.switch_register(Register.rectangle(1, 2, spacing=8, prefix="q")),
+        "switch_device": lambda s: s.switch_device(MockDevice),
+        "switch_device-strict": lambda s: s.switch_device(MockDevice, strict=True),
+        "build": lambda s: s.build(x=1.0) if s.is_parametrized() else s.build(),
+        "abstract-repr": lambda s: Sequence.from_abstract_repr(s.to_abstract_repr()),
+        "legacy-json": lambda s: Sequence._deserialize(s._serialize()),
+    }
+    edits = {
+        "declare_variable": lambda s: s.declare_variable("u", dtype=int),
+        "declare_channel": lambda s: s.declare_channel("extra", "raman_local", initial_target="q0"),
+        "add": lambda s: s.add(Pulse.ConstantPulse(200, 2.0, 0.0, 1.0, post_phase_shift=0.5), "r"),
+        "phase_shift": lambda s: s.phase_shift(0.7, "q0", basis="ground-rydberg"),
+        "delay": lambda s: s.delay(300, "r"),
+        "measure": lambda s: s.measure("ground-rydberg"),
+    }
+
+    def full(s):
+        st = state(s)
+        st["vars"] = tuple(sorted(s.declared_variables))
+        st["declared"] = tuple(s.declared_channels)
+        st["calls"] = tuple(c.name for c in s._calls) + ("|",) + tuple(c.name for c in s._to_build_calls)
+        return st
+
+    v = []
+    for param in (False, True):
+        for mname, make in makers.items():
+            for ename, edit in edits.items():
+                for who in ("copy", "original"):
+                    case = dict(scenario="copy-independence", parametrized=param, via=mname, edit=ename, edited=who)
+                    with warnings.catch_warnings():
+                        warnings.simplefilter("ignore")
+                        try:
+                            orig = mk(param)
+                            cp = make(orig)
+                        except Exception:  # noqa: BLE001
+                            continue  # this way of copying does not apply to this sequence
+                        if cp is orig:
+                            continue
+                        victim, actor = (orig, cp) if who == "copy" else (cp, orig)
+                        try:
+                            before = full(victim)
+                        except Exception:  # noqa: BLE001
+                            continue
+                        try:
+                            edit(actor)
+                        except Exception:  # noqa: BLE001
+                            continue  # the edit itself is refused here (e.g. on a built, measured copy)
+                        after = full(victim)
+                    if after != before:
+                        ks = diff_keys(before, after)
+                        v.append(Violation(f"copy-not-independent:{mname}:{ename}",
+                                           f"{mname} of a {'parametrized' if param else 'concrete'} sequence: {ename} on the {who} changed the other one's {ks}", case))
+    return v
+
+
 def _draw(seq):
     import matplotlib.pyplot as plt
 
@@ -405,6 +479,7 @@ def _extra(self, tier, rng):
                 v.append(Violation(f"read-only-changed-state:{nm}", f"SLM scenario {desc}: changed {ks}", desc))
                 before = now
     v.extend(mode_checks())
+    v.extend(copy_independence_checks())
     return v
 
 
@@ -414,6 +489,11 @@ def _replay(self, payload):
         import random
 
         viols = [x for x in _extra(self, "quick", random.Random(20260926)) if x.signature == payload.get("signature")]
+        for x in viols:
+            print("REPRODUCED:", x.signature, "-", x.what)
+        return 1 if viols else 0
+    if isinstance(case, dict) and case.get("scenario") == "copy-independence":
+        viols = [x for x in copy_independence_checks() if x.signature == payload.get("signature") and x.case == case]
         for x in viols:
             print("REPRODUCED:", x.signature, "-", x.what)
         return 1 if viols else 0
